@@ -851,6 +851,14 @@ func (c *Ctx) acceptSkeleton(rule, typ string, wantSuccessCode bool) {
 		if flow.RecvTypeName(g.Signature) == "Application" {
 			hasApp = true
 		}
+		// … or a helper of the parser that runs the application check
+		if g.Blocks != nil && pkgOf(g) != nil && pkgOf(g).Path() == pkgSMParser {
+			for _, cj := range flow.CallInstrs(g) {
+				if h := flow.StaticCallee(cj); h != nil && h.Signature.Recv() != nil && flow.RecvTypeName(h.Signature) == "Application" {
+					hasApp = true
+				}
+			}
+		}
 	}
 	if !hasUnm || !hasApp {
 		r.Fail(rule, fname(f)+":validation-steps", c.fpos(f), fmt.Sprintf("smparser.%s.Parse lacks a validation step (unmarshal: %v, application check: %v)", typ, hasUnm, hasApp))
